@@ -17,6 +17,8 @@ Record iop := IO {
 
 Record kcase := KC {
   k_store : skind;
+  k_obs : bool;                      (* at least one OnChange listener is registered (io_cbs = what the first one saw);
+                                        false: no OnChange listener at all, callback expectations are vacuous *)
   k_ops : list iop;
   k_final : list (id * option val)   (* Read(id).Value() for every id of the universe afterwards *)
 }.
@@ -68,18 +70,18 @@ Definition model_bc (k : skind) : kvstate -> op -> list bccall :=
 
 (* field codes: 1 result of an operation, 2 OnChange calls of an operation, 3 final content,
    4 BeforeChange calls of an operation *)
-Fixpoint check_ops (k : skind) (st : kvstate) (ops : list iop) : list N * kvstate :=
+Fixpoint check_ops (k : skind) (obs : bool) (st : kvstate) (ops : list iop) : list N * kvstate :=
   match ops with
   | [] => ([], st)
   | o :: r =>
       let '(st1, res, cbs) := model_step k st (io_op o) in
-      let '(codes, st2) := check_ops k st1 r in
+      let '(codes, st2) := check_ops k obs st1 r in
       ((if result_eqb res (io_res o) then [] else [1]) ++
-       (if cbs_eqb cbs (io_cbs o) then [] else [2]) ++
+       (if negb obs || cbs_eqb cbs (io_cbs o) then [] else [2]) ++
        (if bcs_eqb (model_bc k st (io_op o)) (io_bcs o) then [] else [4]) ++ codes, st2)
   end.
 Definition check_case (c : kcase) : list N :=
-  let '(codes, st) := check_ops (k_store c) [] (k_ops c) in
+  let '(codes, st) := check_ops (k_store c) (k_obs c) [] (k_ops c) in
   nodup N.eq_dec
     (codes ++ (if forallb (fun iv => obeq (model_view (k_store c) st (fst iv)) (snd iv)) (k_final c) then [] else [3])).
 
@@ -122,7 +124,7 @@ Fixpoint chain_codes (last : list (id * option val)) (cbs : list cbcall) : list 
       ((if obeq b (olookup i last) then [] else [7]) ++ codes, last')
   end.
 
-Definition op_codes (k : skind) (content : amap) (o : iop) : list N :=
+Definition op_codes (k : skind) (obs : bool) (content : amap) (o : iop) : list N :=
   let j := eff_id k (io_op o) in
   let cur := alookup j content in
   let r := io_res o in
@@ -156,7 +158,8 @@ Definition op_codes (k : skind) (content : amap) (o : iop) : list N :=
        end
    | OExists _ => if result_eqb r (RBool (is_some cur)) then [] else [3]
    end) ++
-  (match io_op o with
+  (if negb obs then [] else
+   match io_op o with
    | OCreate _ v _ | OUpdate _ v _ =>
        if is_ok r then (if cbs_eqb (io_cbs o) [(j, cur, Some v)] then [] else [6])
        else (if is_nil (io_cbs o) then [] else [5])
@@ -185,18 +188,18 @@ Definition apply_impl (k : skind) (content : amap) (o : iop) : amap :=
     end
   else content.
 
-Fixpoint viol_ops (k : skind) (content : amap) (last : list (id * option val)) (ops : list iop)
+Fixpoint viol_ops (k : skind) (obs : bool) (content : amap) (last : list (id * option val)) (ops : list iop)
   : list N * amap :=
   match ops with
   | [] => ([], content)
   | o :: r =>
       let '(cc, last') := chain_codes last (io_cbs o) in
-      let '(codes, content') := viol_ops k (apply_impl k content o) last' r in
-      (op_codes k content o ++ cc ++ codes, content')
+      let '(codes, content') := viol_ops k obs (apply_impl k content o) last' r in
+      (op_codes k obs content o ++ cc ++ codes, content')
   end.
 
 Definition viol_case (c : kcase) : list N :=
-  let '(codes, content) := viol_ops (k_store c) [] [] (k_ops c) in
+  let '(codes, content) := viol_ops (k_store c) (k_obs c) [] [] (k_ops c) in
   nodup N.eq_dec
     (codes ++ (if forallb (fun iv => obeq (alookup (fst iv) content) (snd iv)) (k_final c) then [] else [10])).
 
